@@ -1198,11 +1198,18 @@ def t_reserved_names(facts, res, tier):
     for fn in facts.fns:
         if not fn["file"].endswith("compile.rs"):
             continue
+        # names made up for table entries: `let name = format!("<prefix>{}", counter)` with `name` then a key of variables / functions
+        keys = set()
         for x in walk(fn["body"]):
-            if x.get("k") == "macro" and x.get("name") == "format" and x.get("args") and x["args"][0].get("k") == "lit":
-                m = re.match(r"^([A-Za-z_]+)\{\}$", str(x["args"][0]["v"]))
-                if m:
-                    prefixes.add(m.group(1))
+            if x.get("k") == "mcall" and x["method"] == "insert" and x.get("args") and re.search(r"\.(variables|functions)$", expr_text(x["recv"]).replace(" ", "")):
+                keys |= {y["segs"][0] for y in walk(x["args"][0]) if y.get("k") == "path" and len(y["segs"]) == 1}
+        for x in walk(fn["body"]):
+            if x.get("k") == "let" and x["pat"].get("k") == "ident" and x.get("init") is not None:
+                i0 = x["init"]
+                if i0.get("k") == "macro" and i0.get("name") == "format" and i0.get("args") and i0["args"][0].get("k") == "lit":
+                    m = re.match(r"^([A-Za-z][A-Za-z_]*)\{\}$", str(i0["args"][0]["v"]))
+                    if m and (x["pat"]["name"] in keys or x["pat"]["name"] == "name"):
+                        prefixes.add(m.group(1))
     if not prefixes:
         raise AnchorMissing("no generated global name family (format!(\"<prefix>{}\", ..)) found in compile.rs")
     n = 0
@@ -1672,3 +1679,120 @@ def walk_pat(p):
             yield p[k]
             for z in walk_pat(p[k]):
                 yield z
+
+
+# ----------------------------------------------------------------------------- C01 (the type of ?:)
+
+
+def _implied(doms):
+    """(condition text, truth) pairs known at a node: enclosing conditions, and the negation of every earlier `if c { <diverges> }`."""
+    out = []
+    for d in doms:
+        if d[0] == "cond":
+            out.append((expr_text(d[1]).replace(" ", "").strip("()"), d[2], d[1]))
+        elif d[0] == "stmt" and d[1].get("k") == "if" and d[1].get("else") is None:
+            t = expr_text(d[1]["then"]).replace(" ", "")
+            if t.startswith("{return") or t.startswith("return") or t.startswith("{unreachable!") or t.startswith("{panic!"):
+                out.append((expr_text(d[1]["cond"]).replace(" ", "").strip("()"), False, d[1]["cond"]))
+    return out
+
+
+@rule("T-TERNARY-TYPE", floor=2,
+      text="`c ? a : b` has one type (signedness) for both alternatives: generate_ternary hands back the type of one alternative only where the two "
+           "types were compared and found equal - on every `Ok(..)` it reaches after evaluating both, `la != ra` is known false (or `la == ra` known "
+           "true) with no other way in.  Letting a constant \"take the type of the other side\" accepts `c ? sc : 200`, whose value 200 is then shifted, "
+           "compared and widened as a signed char")
+def t_ternary_type(facts, res, tier):
+    from scopes import scoped
+    fn = facts.fn("generate_ternary", genmodel.GEN_QUAL)
+    n = 0
+    for node, env, doms in scoped(fn):
+        if not (node.get("k") == "call" and expr_text(node["func"]).strip() == "Ok" and node.get("args")):
+            continue
+        # only results produced after both alternatives were assigned (la and ra in scope)
+        if "la" not in env or "ra" not in env:
+            continue
+        n += 1
+        known = _implied(doms)
+        eq = any((t in ("la!=ra", "ra!=la") and pol is False) or (t in ("la==ra", "ra==la") and pol is True) for t, pol, _ in known)
+        key = "T-TERNARY-TYPE:%s" % expr_text(node).replace(" ", "")[:30]
+        res.inst(key, True, {"result": expr_text(node)[:40], "types_known_equal": eq})
+        if not eq:
+            res.fail(key, facts.where(fn, node), "generate_ternary returns `%s` on a path where the types of the two alternatives are not known to be equal: one alternative is then treated with the signedness of the other" % expr_text(node)[:40])
+    if n == 0:
+        raise AnchorMissing("generate_ternary: no result produced after both alternatives (la, ra) found")
+
+
+# ----------------------------------------------------------------------------- C06 (the position of the child, not of the parent)
+
+
+@rule("T-POS-LOOP", floor=5,
+      text="where the front end walks the children of a parse pair in a loop (`for p in <pair>.into_inner()`) and reports an error about one of them, the "
+           "position it gives was taken inside the loop (bound or assigned there, from the child), not before it from the enclosing pair: the children of "
+           "one declaration may lie on several lines, and a position taken once for all of them names the line of the first")
+def t_pos_loop(facts, res, tier):
+    from scopes import scoped
+    n = 0
+    for fn in facts.fns:
+        if fn.get("test") or not fn["file"].endswith("compile.rs"):
+            continue
+        loops = [l for l in walk(fn["body"]) if l.get("k") == "for" and "into_inner()" in expr_text(l.get("iter") or {})]
+        if not loops:
+            continue
+        sc = None
+        for lp in loops:
+            body_ids = {id(x) for x in walk(lp["body"])}
+            lets_inside = {x["pat"]["name"] for x in walk(lp["body"]) if x.get("k") == "let" and x["pat"].get("k") == "ident"}
+            assigned_inside = {expr_text(x["l"]).strip() for x in walk(lp["body"]) if x.get("k") == "assign"}
+            # errors raised directly in this loop (not in a nested loop over grandchildren, which is judged on its own)
+            nested = [l2 for l2 in walk(lp["body"]) if l2 is not lp and l2.get("k") == "for" and "into_inner()" in expr_text(l2.get("iter") or {})]
+            nested_ids = {id(x) for l2 in nested for x in walk(l2["body"])}
+            for c in walk(lp["body"]):
+                if id(c) in nested_ids:
+                    continue
+                if not (c.get("k") == "mcall" and c["method"] in ("syntax_error", "compiler_error") and len(c.get("args", [])) >= 2):
+                    continue
+                pa = c["args"][-1]
+                if not (pa.get("k") == "path" and len(pa["segs"]) == 1):
+                    continue
+                nm = pa["segs"][0]
+                n += 1
+                inside = nm in lets_inside or nm in assigned_inside
+                key = "T-POS-LOOP:%s:%s:%s" % (fn["name"], expr_text(lp["iter"]).replace(" ", "")[:24], nm)
+                res.inst(key, True, {"function": fn["name"], "loop_over": expr_text(lp["iter"])[:30], "position": nm, "taken_inside_the_loop": inside})
+                if not inside:
+                    res.fail(key, facts.where(fn, c), "%s reports an error about a child of `%s` at `%s`, which was taken before the loop over the children: every child is reported where the first one stands" % (fn["name"], expr_text(lp["iter"])[:30], nm))
+    if n == 0:
+        raise AnchorMissing("no error raised inside a loop over the children of a pair found")
+
+
+# ----------------------------------------------------------------------------- C14 (line numbers held by the generator)
+
+
+@rule("T-CODE-APPEND-ONLY", floor=5,
+      text="while a function is generated the generator keeps line numbers of its AssemblyCode (the placeholder returned by append_dummy(), filled "
+           "later through set(line, ..) with the `STY cctmp` that saves Y).  The functions of AssemblyCode that run in that phase - the append_* family "
+           "and set - only add lines at the end or overwrite one in place: none removes, inserts or reorders lines of `self.code`.  (optimize and "
+           "check_branches run when generation is over and are not concerned.)  append_code compacting the caller's code after a paste moves every "
+           "later line, and the pending `STY cctmp` lands on an instruction of the argument set-up")
+def t_code_append_only(facts, res, tier):
+    n = 0
+    ok_methods = {"push", "len", "get", "get_mut", "iter", "iter_mut", "last", "last_mut", "is_empty", "extend", "extend_from_slice", "append", "reserve", "first", "capacity"}
+    for fn in facts.fns:
+        if not fn["file"].endswith("assemble.rs") or "AssemblyCode" not in fn.get("qual", "") or fn.get("test"):
+            continue
+        if not (fn["name"].startswith("append") or fn["name"] in ("set", "push_code")):
+            continue
+        n += 1
+        key = "T-CODE-APPEND-ONLY:%s" % fn["name"]
+        uses = []
+        for x in walk(fn["body"]):
+            if x.get("k") == "mcall" and expr_text(x["recv"]).replace(" ", "") in ("self.code", "&mutself.code", "(&mutself.code)"):
+                uses.append(x["method"])
+                if x["method"] not in ok_methods:
+                    res.fail(key, facts.where(fn, x), "%s calls `self.code.%s(..)`: lines are removed, inserted or reordered while the generator may hold a line number of this code (the placeholder of a pending `STY cctmp`)" % (fn["name"], x["method"]))
+            if x.get("k") == "assign" and expr_text(x["l"]).replace(" ", "") == "self.code":
+                res.fail(key, facts.where(fn, x), "%s replaces `self.code`" % fn["name"])
+        res.inst(key, True, {"function": fn["name"], "uses_of_self_code": sorted(set(uses))})
+    if n == 0:
+        raise AnchorMissing("AssemblyCode::append_* / set not found")
